@@ -2,6 +2,7 @@ package main
 
 import (
 	"fmt"
+	"go/ast"
 	"go/constant"
 	"go/token"
 	"go/types"
@@ -23,6 +24,8 @@ type Frame struct {
 	oldSt   *State
 	loopOrd map[*ssa.BasicBlock]int
 	freeVar map[*ssa.FreeVar]Val
+	locals  map[string]Val // source-level local variables (from DebugRef), latest binding
+	idxVals map[string]Val // $idx<k> of enclosing range loops
 }
 
 type deferRec struct {
@@ -636,6 +639,18 @@ func (vc *VC) execInstr(fr *Frame, in ssa.Instruction, st *State) {
 		}
 		fr.defers = append(fr.defers, d)
 	case *ssa.DebugRef:
+		if id, ok := x.Expr.(*ast.Ident); ok && id.Name != "_" {
+			if _, isVar := x.Object().(*types.Var); isVar {
+				if fr.locals == nil {
+					fr.locals = map[string]Val{}
+				}
+				v := vc.operand(fr, x.X)
+				if x.IsAddr {
+					v = Val{Addr: vc.addrOfPtr(v), Typ: v.Typ, Sort: "addr"}
+				}
+				fr.locals[id.Name] = v
+			}
+		}
 	case *ssa.Go:
 		vc.fatalf("go statement (goroutines are outside the subset)")
 	case *ssa.Send, *ssa.Select, *ssa.MakeChan:
